@@ -258,6 +258,13 @@ func init() {
 	items := []item{
 		{"uint 5", refcbor.EncUint(5), 0},
 		{"uint 2^32", refcbor.EncUint(1 << 32), 0},
+		// one item per head width, the wide ones with every argument byte distinct and non-zero: a decoder
+		// that keeps argument bytes from one head to the next shows them in the following narrower head
+		{"uint 24 (1-byte argument)", refcbor.EncUint(24), 0},
+		{"uint 0x0102 (2-byte argument)", refcbor.EncUint(0x0102), 0},
+		{"uint 0x01020304 (4-byte argument)", refcbor.EncUint(0x01020304), 0},
+		{"uint 0x1112131415161718 (8-byte argument)", refcbor.EncUint(0x1112131415161718), 0},
+		{"array(70000) (4-byte count)", refcbor.AppendHead(nil, refcbor.Array, 70000), 1},
 		{"array(2)", refcbor.AppendHead(nil, refcbor.Array, 2), 1},
 		{"map(1)", refcbor.AppendHead(nil, refcbor.Map, 1), 2},
 		{"bytes ab", refcbor.EncBytes([]byte("ab")), 3},
